@@ -90,6 +90,12 @@ def generate(rng, tier, index):
                 ln["t"] = "%include " + ln["ref"]
             new.append(ln)
         uni["res"][top] = new
+    if mode == "relfile" and rng.random() < 0.1:
+        # a long preamble: the text-mode stream decodes the file a block
+        # (8 KiB) at a time, and the culprit lies in a later block
+        pad = [{"t": "# %04d %s" % (i, "preamble \u00e9\u4e2d " * 3),
+                "role": "comment"} for i in range(rng.randint(160, 220))]
+        uni["res"][uni["top"]] = pad + uni["res"][uni["top"]]
     override = None
     if mode == "override":
         pool = _override_pool(rng, uni)
@@ -144,9 +150,11 @@ def _load(schema, world, res, top, mode, eol=None, loader=None,
     if mode == "loader":
         return loader.loadURL(top)
     if mode == "relfile":
-        with open(os.path.join(scratch, "a", "top.conf"), "w",
-                  encoding="utf-8", newline="") as f:
-            f.write(world.store[top])
+        with open(os.path.join(scratch, "a", "top.conf"), "wb") as f:
+            # (U+E000 stands for a byte that is not UTF-8 at all: the file
+            # was saved in another encoding)
+            f.write(world.store[top].encode("utf-8").replace(
+                "\ue000".encode("utf-8"), b"\xff"))
         os.chdir(os.path.join(scratch, "a"))
         try:
             # (newline="\n": lines end at LF and nowhere else, nothing is
@@ -279,6 +287,15 @@ def _execute(plan, scratch):
                     out["evaluations"] += 1
         else:
             injs = TF.enumerate_injections(ir, uni, plan.get("kinds"))
+            if mode == "relfile":
+                # a line with a byte that cannot be decoded, at every
+                # position of the file the application opened in text mode:
+                # the line that cannot be read is the culprit
+                for idx in range(len(base_res[top]) + 1):
+                    injs.append(TF._ins(
+                        "undecodable", idx % 3, top, idx,
+                        [["zzbad caf\ue000 x", "# caf\ue000",
+                          "<zz\ue000>"][idx % 3]]))
         xmlh = hashlib.sha256(plan["schema_xml"].encode()).hexdigest()[:8]
         served = list(before)
         for inj in injs:
